@@ -38,7 +38,7 @@ ASSUMPTIONS = [
 BUDGET_S = {"quick": 300, "thorough": 3000}
 MIN_EVALS = {"quick": 2500, "thorough": 30000}
 
-WORLDS = ("ok", "dns-fail", "refuse", "tcp-hang", "garbage", "badauth", "silent")
+WORLDS = ("ok", "dns-fail", "refuse", "tcp-hang", "garbage", "badauth", "silent", "bye-with-last-answer")
 
 
 def apply_world(sim: Sim, cfg: DeviceConfig, world: str) -> None:
@@ -48,8 +48,20 @@ def apply_world(sim: Sim, cfg: DeviceConfig, world: str) -> None:
     cfg.invalid_password = world == "badauth"
     cfg.answer_hello = world != "silent"
     cfg.hello_extra = None
+    cfg.handlers.pop("ConnectRequest", None)
+    cfg.coalesce_replies = False
     if world == "garbage":
         cfg.hello_extra = lambda c: c.send_raw(b"\x42\x42\x42\x42")
+    if world == "bye-with-last-answer":
+        # a device about to reboot / go to deep sleep: it answers the login and says goodbye in ONE write (the answer that completes the connect
+        # phase and a DisconnectRequest reach the client in the same chunk); without a login request the goodbye rides on the hello answer
+        cfg.coalesce_replies = True
+
+        def bye_after_connect(c: Any, m: Any) -> None:
+            c.send("ConnectResponse", invalid_password=False)
+            c.send("DisconnectRequest")
+
+        cfg.handlers["ConnectRequest"] = bye_after_connect
     if world == "dns-fail":
         sim.net.dns["*"] = socket.gaierror(socket.EAI_NONAME, "Name or service not known")
     sim.world = world  # type: ignore[attr-defined]
@@ -71,7 +83,7 @@ def run_history(hist: list[Any]) -> dict[str, Any]:
 
             def policy(sock: Any, addr: Any) -> tuple[Any, ...]:
                 w = getattr(sim, "world", "ok")
-                if w == "refuse":
+                if w == "refuse" or addr[0] == "10.0.0.7":
                     return ("refuse", 0.001)
                 if w == "tcp-hang":
                     return ("hang",)
@@ -82,7 +94,12 @@ def run_history(hist: list[Any]) -> dict[str, Any]:
             sim.net.dns["dev.example.com"] = ["10.0.0.1"]
             # optional first step ["cfg", {...}]: how the client object is configured (password None / "" / "pw")
             ccfg = hist[0][1] if hist and hist[0][0] == "cfg" else {}
-            cli = sim.client("dev.example.com", 6053, ccfg.get("password", "pw"))
+            extra_kw: dict[str, Any] = {}
+            if ccfg.get("addresses") in ("tuple", "list"):
+                # two configured addresses, the first one never answers (refused): as a list, or as a tuple - both are sequences of addresses
+                seq_ = ["10.0.0.7", "10.0.0.1"] if ccfg.get("password") != "other" else ["10.0.0.7", "dev.example.com"]
+                extra_kw["addresses"] = tuple(seq_) if ccfg["addresses"] == "tuple" else seq_
+            cli = sim.client("dev.example.com", 6053, ccfg.get("password", "pw"), **extra_kw)
             apply_world(sim, cfg, "ok")
             sim.net.dns["dev.example.com"] = ["10.0.0.1"]
             calls: list[Any] = []
@@ -117,6 +134,31 @@ def run_history(hist: list[Any]) -> dict[str, Any]:
                     sim.run_for(0.001)
                 else:
                     sim.settle()
+
+            def do_probe(k: int) -> None:
+                name = names[k % len(names)]
+                n_w = sum(len(t.sim_writes) for t in sim.transports)
+                n_b = len(sim.send_batches) + len(sim.send_stack)
+                seq = sim.next_seq()
+                p: dict[str, Any] = {"seq": seq, "t": sim.clock, "name": name, "raised": None, "suspended": False}
+                try:
+                    r = R[name](cli, sim, rec_cb)
+                    if inspect.iscoroutine(r):
+                        try:
+                            r.send(None)
+                            p["suspended"] = True
+                        except StopIteration:
+                            pass
+                        finally:
+                            r.close()
+                except APIConnectionError as e:
+                    p["raised"] = e
+                except BaseException as e:  # noqa: BLE001
+                    p["raised"] = e
+                p["writes"] = sum(len(t.sim_writes) for t in sim.transports) - n_w
+                p["sends"] = len(sim.send_batches) + len(sim.send_stack) - n_b
+                p["seq_end"] = sim.next_seq()
+                probes.append(p)
 
             skipped = 0
             for step in hist:
@@ -257,29 +299,24 @@ def run_history(hist: list[Any]) -> dict[str, Any]:
                         c.send_raw(b"\x42\x42\x42", 0.0)
                     sim.run_for(0.001)
                 elif op == "api":
-                    name = names[step[1] % len(names)]
-                    n_w = sum(len(t.sim_writes) for t in sim.transports)
-                    n_b = len(sim.send_batches) + len(sim.send_stack)
-                    seq = sim.next_seq()
-                    p: dict[str, Any] = {"seq": seq, "t": sim.clock, "name": name, "raised": None, "suspended": False}
-                    try:
-                        r = R[name](cli, sim, rec_cb)
-                        if inspect.iscoroutine(r):
-                            try:
-                                r.send(None)
-                                p["suspended"] = True
-                            except StopIteration:
-                                pass
-                            finally:
-                                r.close()
-                    except APIConnectionError as e:
-                        p["raised"] = e
-                    except BaseException as e:  # noqa: BLE001
-                        p["raised"] = e
-                    p["writes"] = sum(len(t.sim_writes) for t in sim.transports) - n_w
-                    p["sends"] = len(sim.send_batches) + len(sim.send_stack) - n_b
-                    p["seq_end"] = sim.next_seq()
-                    probes.append(p)
+                    do_probe(step[1])
+                    sim.settle()
+                elif op == "connect+api":
+                    # the usual application code: `await client.connect(...)` and then, in the same step of the same task - before the loop runs
+                    # anything else - the first API calls
+                    apply_world(sim, cfg, step[1])
+                    sim.net.dns["dev.example.com"] = ["10.0.0.1"]
+
+                    async def app(k0: int = step[2], n: int = step[3]) -> None:
+                        try:
+                            await cli.connect(on_stop=mk_on_stop(), login=True)
+                        except BaseException:  # noqa: BLE001   (its outcome is in the boundary log)
+                            pass
+                        for j in range(n):
+                            do_probe(k0 + j)
+
+                    r = sim.call("app", app)
+                    sim.run(until=lambda: r.done, max_time=sim.clock + 150)
                     sim.settle()
                 elif op == "run":
                     sim.run_for(step[1])
@@ -396,6 +433,11 @@ def judge(hist: list[Any], o: dict[str, Any]) -> tuple[list[tuple[str, str]], di
             if e[5] == "ok" and rejected:
                 stats["finish_ok_after_rejected_login"] = stats.get("finish_ok_after_rejected_login", 0) + 1
                 last_reason = "after the device rejected the login"
+            elif e[5] == "ok" and cur_conn in conn_closed:
+                # the connection had already closed (the device said goodbye in the chunk that completed the phase) when finish_connection
+                # returned "success": no session came alive, whatever the call said
+                stats["finish_ok_on_a_connection_already_closed"] = stats.get("finish_ok_on_a_connection_already_closed", 0) + 1
+                last_reason = "after the device ended the session in the chunk that completed the connect phase"
             elif e[5] == "ok":
                 alive = True
                 last_reason = ""
@@ -453,7 +495,7 @@ def gen_history(rng: Any) -> list[Any]:
     for _ in range(n):
         r = rng.random()
         if not h and r < 0.3:
-            h.append(["cfg", {"password": rng.choice([None, "", "pw", "other"])}])
+            h.append(["cfg", {"password": rng.choice([None, "", "pw", "other"]), "addresses": rng.choice([None, None, "tuple", "list"])}])
         elif r < 0.22:
             h.append(["start", rng.choice(WORLDS) if rng.random() < 0.5 else "ok", rng.choice(["done", "done", "none", "ms"])])
         elif r < 0.36:
@@ -525,6 +567,26 @@ def shard(ctx: Ctx) -> None:
             idx += 1
             if ctx.mine(idx):
                 one(ctx, [list(ALPHABET[i]) for i in combo], f"all-histories-len{ln}")
+    # a device that says goodbye in the chunk that completes the connect phase; then API calls at once (before the application yields to the loop
+    # again), then a new attempt
+    for pw in (None, "pw"):
+        for how in (["connect", "bye-with-last-answer", "done"], ["start", "bye-with-last-answer", "done"]):
+            for k in range(0, 64, 8):
+                idx += 1
+                if ctx.mine(idx):
+                    h1: list[Any] = [["cfg", {"password": pw}], how] + ([["finish", "done"]] if how[0] == "start" else [])
+                    one(ctx, h1 + [["api", k + j] for j in range(8)] + [["connect", "ok", "done"], ["api", k], ["disconnect", "done"], ["connect", "ok", "done"]],
+                        "goodbye-with-the-last-answer")
+                    if how[0] == "connect":
+                        one(ctx, [["cfg", {"password": pw}], ["connect+api", "bye-with-last-answer", k, 8], ["connect+api", "ok", k, 4], ["dev", "eof"],
+                                  ["connect+api", "bye-with-last-answer", k + 3, 4], ["connect", "ok", "done"]], "goodbye-with-the-last-answer/api-in-the-same-step")
+    # several configured addresses (list / tuple), the first one refusing: sessions come and go as with one address
+    for form in ("tuple", "list"):
+        for tail in ([["disconnect", "done"]], [["dev", "eof"]], [["force"]], [["dev", "discreq"]]):
+            idx += 1
+            if ctx.mine(idx):
+                one(ctx, [["cfg", {"password": "pw", "addresses": form}], ["connect", "ok", "done"], ["api", 3]] + tail +
+                    [["connect", "ok", "done"], ["api", 5]] + tail + [["start", "ok", "done"], ["finish", "done"], ["api", 7]], "several-addresses")
     # a password-protected device rejecting the login of clients configured with no / an empty / a wrong password, then every API recipe
     for pw in (None, "", "pw", 0):
         for how in (["connect", "badauth", "done"], ["start", "badauth", "done"]):
